@@ -1291,6 +1291,8 @@ impl CoreRuntime {
                 // IR intrinsic bookkeeping: align timer metadata with Python intrinsic IRQ handling.
                 if opcode == 0xFE {
                     self.timer.in_interrupt = true;
+                    // A software interrupt delivers no hardware source: its RETI has nothing to retire.
+                    self.timer.delivered_masks.push(0);
                     self.timer.irq_pending = false;
                     self.timer.irq_source = Some("IR".to_string());
                     self.timer.last_fired = self.timer.irq_source.clone();
